@@ -62,13 +62,28 @@ class Rec:
         self.extra = {}
 
     # -- case bookkeeping -------------------------------------------------
-    def begin(self, case):
+    def begin(self, case, rerun=False):
         self.case = case
         self.case_nontrivial = False
         self.case_violated = False
+        # checkpoint of everything a case can add to (rollback() restores it; clause tables are small)
+        self._checkpoint = (len(self.violations), dict(self._viol_keys), self.n_violations, {c: list(v) for c, v in self.clauses.items()},
+                            dict(self.monitor_calls), dict(self.notes))
+        if rerun:
+            return
         self.evaluations += 1
         fam = case.get("family", "?")
         self.families[fam] = self.families.get(fam, 0) + 1
+
+    def rollback(self):
+        """Forget what the current case recorded so far (used before re-running it)."""
+        nv, keys, n, clauses, calls, notes = self._checkpoint
+        del self.violations[nv:]
+        self._viol_keys = keys
+        self.n_violations = n
+        self.clauses = clauses
+        self.monitor_calls = calls
+        self.notes = notes
 
     def end(self):
         if self.case is None:
@@ -150,6 +165,54 @@ class Rec:
             "notes": self.notes,
             "extra": self.extra,
         }
+
+
+# ---------------------------------------------------------------------------
+# back-end watch: failures of the MILP solver that no workload injected
+# ---------------------------------------------------------------------------
+class SolverWatch:
+    """Counts calls of pulp.LpProblem.solve that raised or ended non-optimal while NO fault injection was active.
+    Such a failure comes from the environment (the CBC child process killed or starved on a loaded machine), not from
+    the code under observation; the library then legitimately falls back to first-come-first-served.  The worker
+    re-runs a case that recorded a violation while one happened: a transient failure disappears on the re-run, a
+    failure the code causes does not."""
+
+    injecting = 0
+    unexpected = 0
+    installed = False
+
+    @classmethod
+    def install(cls):
+        if cls.installed:
+            return
+        try:
+            import pulp
+        except Exception:
+            return
+        orig = pulp.LpProblem.solve
+
+        fail_at = int(os.environ.get("VMON_SELFTEST_SOLVER_FAILS_AT", "0"))  # self-test of this mechanism only
+        calls = [0]
+
+        def solve(self, solver=None, **kw):
+            if fail_at and not cls.injecting:
+                calls[0] += 1
+                if calls[0] == fail_at:
+                    cls.unexpected += 1
+                    raise pulp.PulpSolverError("vmon self-test: simulated transient failure of the solver process")
+            try:
+                status = orig(self, solver, **kw)
+            except Exception:
+                if not cls.injecting:
+                    cls.unexpected += 1
+                raise
+            if not cls.injecting and self.status != pulp.LpStatusOptimal:
+                cls.unexpected += 1
+            return status
+
+        solve.__vmon_orig__ = orig
+        pulp.LpProblem.solve = solve
+        cls.installed = True
 
 
 # ---------------------------------------------------------------------------
